@@ -8,14 +8,15 @@ func init() {
 			"of Flush is a flushChunk call dominated by written() > 0 (an idle Flush emits nothing); flushChunk's paths project onto the frozen word " +
 			"encoder.Close . writeChunk . buf.Reset . lbw.N=65536 . encoder.Reopen . cstate.next(ctype) . ctype=default . start=cloneState(encoder.state); " +
 			"the raw fallback records the mapped chunk type in w.ctype and restores encoder.state = w.start before writing; headers carry w.ctype; the writer " +
-			"only emits chunk sequences that are legal in the specification automaton; chunk budget constants; EF-IO over the writer cone. " +
-			"NOT decided: that the flushed prefix decodes to the written data (value statement; ring-buffer arithmetic of CopyN is out of reach).",
+			"only emits chunk sequences that are legal in the specification automaton; chunk budget constants; EF-IO over the writer cone; (RING-MOD) every index wrap of the encoder-side circular buffers (buffer, encoderDict incl. CopyN which supplies raw chunk payloads, hashTable, binTree) adjusts by exactly len(data) of the ring. " +
+			"NOT decided: that the flushed prefix decodes to the written data (value statement); of the ring-buffer arithmetic only the wrap modulus (RING-MOD) is decided.",
 		run: func(c *Ctx, r *Report) {
 			t := getChunkTables(c, r, "")
 			ruleWriter2(c, r, t, "")
 			ruleWriterChunkLegality(c, r, t, "")
 			ruleChunkLimits(c, r, "")
 			ruleChunkHeaderCodec(c, r, t, "")
+			ruleRingModulus(c, r, "", "enc")
 			cone := c.Cone(nonNilFns(c.Func("lzma", "Writer2.Write"), c.Func("lzma", "Writer2.Flush"), c.Func("lzma", "Writer2.Close"),
 				c.Func("lzma", "Writer2Config.NewWriter2"))...)
 			ruleIO(c, r, cone, "", true)
